@@ -792,7 +792,7 @@ package regexp2
 //@   props C02 C08 C07
 //@   ensures[pool] re.runnerPool != nil
 //@   requires RegexpWF(re) && RegexpFacts(re) && OriginFree(re) && re.runnerPool != nil
-//@   callassume run: DecodeOf(input, s) ==> forall o int, p int {Att(re.code, input, o, p)} :: Att(re.code, input, o, p) == AttS(re.code, s, o, p)
+//@   callassume run: DecodeOf(input, s) ==> forall o int, p int {Att(re.code, input, o, p)} {AttS(re.code, s, o, p)} :: Att(re.code, input, o, p) == AttS(re.code, s, o, p)
 //@   modifies re.runnerPool, re.replaceCache, objs(Runner), objs(Match), elems(int), elems([]int)
 //@   ensures[errnil] err != nil ==> m == nil
 //@   ensures[found]  err == nil ==> ((m != nil) == HasMatchS(re.code, s, NormStart(re.code.RightToLeft, -1, RuneCount(s)), NormStart(re.code.RightToLeft, -1, RuneCount(s))))
@@ -803,7 +803,7 @@ package regexp2
 //@   props C02 C08 C07
 //@   ensures[pool] re.runnerPool != nil
 //@   requires RegexpWF(re) && RegexpFacts(re) && OriginFree(re) && re.runnerPool != nil
-//@   callassume run: DecodeOf(input, s) ==> forall o int, p int {Att(re.code, input, o, p)} :: Att(re.code, input, o, p) == AttS(re.code, s, o, p)
+//@   callassume run: DecodeOf(input, s) ==> forall o int, p int {Att(re.code, input, o, p)} {AttS(re.code, s, o, p)} :: Att(re.code, input, o, p) == AttS(re.code, s, o, p)
 //@   modifies re.runnerPool, re.replaceCache, objs(Runner), objs(Match), elems(int), elems([]int)
 //@   ensures[errnil] err != nil ==> m == nil
 //@   ensures[argerr] (startAt > len(s) || (startAt >= 0 && !OnBoundary(s, startAt))) ==> err != nil
@@ -822,7 +822,7 @@ package regexp2
 //@   props C02 C12
 //@   requires RegexpWF(re) && RegexpFacts(re) && re.runnerPool != nil
 //@   callassume scan: FactsHold(re) && (r.code == re.code || r.code == re.quickCode) ==> FinderFacts(r.code, rt, textstart)
-//@   callassume scan: DecodeOf(rt, s) ==> forall o int, p int {Att(re.code, rt, o, p)} :: Att(re.code, rt, o, p) == AttS(re.code, s, o, p)
+//@   callassume scan: DecodeOf(rt, s) ==> forall o int, p int {Att(re.code, rt, o, p)} {AttS(re.code, s, o, p)} :: Att(re.code, rt, o, p) == AttS(re.code, s, o, p)
 //@   modifies re.runnerPool, re.replaceCache, objs(Runner), objs(Match), elems(int), elems([]int), elems(rune), cells([]rune)
 //@   ensures[errfalse] err != nil ==> !ok
 //@   ensures[default]  err == nil && startAt <= 0 ==> (ok == HasMatchS(re.code, s, NormStart(re.code.RightToLeft, -1, RuneCount(s)), NormStart(re.code.RightToLeft, -1, RuneCount(s))))
@@ -834,7 +834,7 @@ package regexp2
 //@   props C02
 //@   requires RegexpWF(re) && RegexpFacts(re) && re.runnerPool != nil
 //@   callassume scan: FactsHold(re) && (r.code == re.code || r.code == re.quickCode) ==> FinderFacts(r.code, rt, textstart)
-//@   callassume scan: DecodeOf(rt, s) ==> forall o int, p int {Att(re.code, rt, o, p)} :: Att(re.code, rt, o, p) == AttS(re.code, s, o, p)
+//@   callassume scan: DecodeOf(rt, s) ==> forall o int, p int {Att(re.code, rt, o, p)} {AttS(re.code, s, o, p)} :: Att(re.code, rt, o, p) == AttS(re.code, s, o, p)
 //@   modifies re.runnerPool, re.replaceCache, objs(Runner), objs(Match), elems(int), elems([]int), elems(rune), cells([]rune)
 //@   ensures[errfalse] err != nil ==> !ok
 //@   ensures[found]    err == nil ==> (ok == HasMatchS(re.code, s, NormStart(re.code.RightToLeft, -1, RuneCount(s)), NormStart(re.code.RightToLeft, -1, RuneCount(s))))
